@@ -104,10 +104,46 @@ def harness(tier, seed):
                 if not (lo <= v <= hi_):
                     viol.append(("objective/bounds", {**info, "x": list(p)}, f"{v} not in [{lo}, {hi_}]"))
                     break
+    # ---- degenerate pairs: one matrix all zero (every objective value and both trivial bounds are 0) while the other one
+    # holds large numbers; and a valid user-supplied upper bound that is smaller than an entry which never contributes
+    # (a flow on the diagonal): the stored matrices must still be the given ones
+    for (f, d, kw) in (([[0, 1000], [300, 0]], [[0, 0], [0, 0]], {}),
+                       ([[0, 0], [0, 0]], [[0, 70000], [5, 0]], {}),
+                       ([[0, 0, 0], [0, 0, 0], [0, 0, 0]], [[0, 2, 10 ** 9], [3, 0, 1], [1, 1, 0]], {}),
+                       ([[1000, 1], [1, 0]], [[0, 1], [1, 0]], {"upper_bound": 2})):
+        n = len(f)
+        info = {"n": n, "flows": f, "distances": d, **kw}
+        for how in ("constructor", "qaplib-text"):
+            try:
+                if how == "constructor":
+                    inst = Instance(np.array(d), np.array(f), **kw)
+                else:
+                    if kw:
+                        continue
+                    inst = Instance.from_qaplib_stream(iter([str(n)] + [" ".join(map(str, r)) for r in f]
+                                                            + [" ".join(map(str, r)) for r in d]))
+            except Exception as ex:
+                viol.append(("instance/raises", {**info, "via": how}, repr(ex)))
+                continue
+            evals += 1
+            distinct.add(("degenerate", how, str(f), str(d)))
+            if inst.flows.tolist() != f or inst.distances.tolist() != d:
+                viol.append(("instance/stored-matrices-differ", {**info, "via": how},
+                             f"stored flows {inst.flows.tolist()} distances {inst.distances.tolist()} (dtype {inst.flows.dtype})"))
+                continue
+            obj = QAPObjective(inst)
+            for p in itertools.permutations(range(n)):
+                want = sum(f[i][j] * d[p[i]][p[j]] for i in range(n) for j in range(n))
+                v = int(obj.evaluate(np.array(p)))
+                evals += 1
+                if v != want or not (obj.lower_bound() <= v <= obj.upper_bound()):
+                    viol.append(("objective/value", {**info, "x": list(p)}, f"evaluate={v} sum={want}"))
+                    break
     seen = set()
     viol = [v for v in viol if not (v[0] in seen or seen.add(v[0]))]
     return {"name": "qap", "evaluations": evals, "distinct_nontrivial": len(distinct),
             "rule": "random matrices n <= 6 (values up to 10^6) serialised as QAPLIB text with classic, single-line and random "
                     "wrapping (blank lines, lines straddling the flows/distances boundary); parsed instance equals the "
-                    "matrices; all n! permutations: value == sum f*d and within [lower, upper]; distinct = distinct texts",
+                    "matrices; all n! permutations: value == sum f*d and within [lower, upper]; narrow input dtypes; degenerate pairs "
+                    "(one matrix all zero, valid user bounds below a non-contributing entry); distinct = distinct texts",
             "samples": samples, "violations": viol, "exhaustive": False}
